@@ -737,6 +737,16 @@ pub fn analyze_tuple_pattern_for_complement(
         _ => return None,
     };
 
+    // A name bound twice is an equality test between two parts of the value: the match can fail
+    // although every field has the constrained type, so its failure says nothing about that type
+    // (`=[Cons[h, t], h]` failing on [Cons[1, Nil], 2] does not make field 0 a non-Cons).
+    let mut binders = Vec::new();
+    collect_binder_names(pattern, &mut binders);
+    let unique: std::collections::HashSet<&String> = binders.iter().collect();
+    if unique.len() != binders.len() {
+        return None;
+    }
+
     let field_type_ids = get_tuple_field_types(value_type_id, program)?;
 
     if tuple_pattern.fields.len() != field_type_ids.len() {
@@ -761,6 +771,33 @@ pub fn analyze_tuple_pattern_for_complement(
     }
 
     constraining
+}
+
+/// Every occurrence of a binder name in a pattern, nested patterns included.
+fn collect_binder_names(pattern: &ast::Match, names: &mut Vec<String>) {
+    match pattern {
+        ast::Match::Identifier(name, _) | ast::Match::As(_, name, _) => names.push(name.clone()),
+        ast::Match::Tuple(tuple) => {
+            for field in &tuple.fields {
+                collect_binder_names(&field.pattern, names);
+            }
+        }
+        ast::Match::Partial(partial) => {
+            for field in &partial.fields {
+                match &field.pattern {
+                    Some(nested) => collect_binder_names(nested, names),
+                    None => names.push(field.name.clone()),
+                }
+            }
+        }
+        // Alternatives bind the same names on purpose; count one alternative.
+        ast::Match::Or(alternatives) => {
+            if let Some(first) = alternatives.first() {
+                collect_binder_names(first, names);
+            }
+        }
+        _ => {}
+    }
 }
 
 /// Get field type IDs from a tuple value type.
